@@ -4,6 +4,8 @@ import Proofs.RdataTextIP6e
 import Proofs.RdataTextUtf8
 import Proofs.RdataTextField2
 import Proofs.RdataTextField3
+import Proofs.RdataTextBitmap
+import Proofs.RdataTextB32
 /-! Records: fields joined by spaces, tails, and the schema-generic round trip through `dns.rdata.from_text` (C05). -/
 namespace Model
 
@@ -30,7 +32,8 @@ def FieldOk (st : Style) (env : PEnv) : FK → FV → Prop
   | .ctype, .n v => v ≤ 65535
   | .keyFlags, .n v => v ≤ 65535
   | .keyProto, .n v => v ≤ 255
-  | .sigtime, .n v => v ≤ 4294967295
+  | .sigtime, .n v => v < 4294967296
+  | .b32hex, .b s => (∀ x ∈ s, x < 256) ∧ s ≠ [] ∧ s.length ≤ 255
   | _, _ => False
 
 theorem field_ip6 (st : Style) (env : PEnv) (a : Bytes) (hlen : a.length = 16) (ha : ∀ x ∈ a, x < 256) :
@@ -79,6 +82,7 @@ theorem field_rt (st : Style) (env : PEnv) (k : FK) (v : FV) (h : FieldOk st env
   case keyFlags.n v => exact ⟨_, _, field_keyFlags st env v h⟩
   case keyProto.n v => exact ⟨_, _, field_keyProto st env v h⟩
   case sigtime.n v => obtain ⟨t, ht⟩ := field_sigtime st env v h; exact ⟨_, _, ht⟩
+  case b32hex.b s => exact ⟨_, _, field_b32hex st env s h.1 h.2.1 h.2.2 (b32_roundtrip s h.1)⟩
 
 def FieldsOk (st : Style) (env : PEnv) : List FK → List FV → Prop
   | [], [] => True
@@ -127,6 +131,7 @@ def TailOk (st : Style) (vals : List FV) : TK → Option FV → Prop
   | .keyB64, some (.b d) =>
     (keyIsNoKey vals = true ∧ d = []) ∨
     (keyIsNoKey vals = false ∧ d ≠ [] ∧ (∀ x ∈ d, x < 256) ∧ ChunkOk st.b64Chunk st.b64Sep)
+  | .bitmap, some (.wl ws) => WfWins ws
   | _, _ => False
 
 def HeadNotHash (toks : List Tok) : Prop := ∀ t, toks.head? = some t → NotHash t
@@ -160,7 +165,7 @@ theorem parseTxt_quoted (E : Bytes → List Nat) (ss : List Bytes)
     have hle : ¬ s.length > 255 := by omega
     simp [parseTxt, hu, ih (fun x hx => h x (by simp [hx])), hle]
 
-theorem tail_rt (st : Style) (vals : List FV) (tk : TK) (tail : Option FV) (h : TailOk st vals tk tail) :
+theorem tail_rt (st : Style) (vals : List FV) (tk : TK) (tail : Option FV) (h : TailOk st vals tk tail) (hnb : tk ≠ .bitmap) :
     ∃ items : List (List Nat × List Tok),
       printTail st tk tail = some (items.map (·.1)) ∧ (∀ p ∈ items, Lexes p.1 p.2) ∧
       parseTail vals tk (items.flatMap (·.2)) = some tail ∧ HeadNotHash (items.flatMap (·.2)) := by
@@ -168,6 +173,7 @@ theorem tail_rt (st : Style) (vals : List FV) (tk : TK) (tail : Option FV) (h : 
   case none.none =>
     exact ⟨[], by simp [printTail], by simp, by simp [parseTail], by intro t ht; simp at ht⟩
   all_goals rename_i v; cases v <;> simp only [TailOk] at h <;> try exact h.elim
+  case bitmap.some.wl ws => exact absurd rfl hnb
   case keyB64.some.b d =>
     rcases h with ⟨hk, rfl⟩ | ⟨hk, hne, hd, hc⟩
     · refine ⟨[([], [])], by simp [printTail, b64Encode, wordbreak, chunksOf, joinSep], ?_, by simp [parseTail, hk],
@@ -251,12 +257,52 @@ theorem isGenericStart_false (toks : List Tok) (h : HeadNotHash toks) : isGeneri
       · exact absurd rfl (hv 35 [] hval)
       · simp [hval]
 
+theorem joinSep_snoc (fs : List (List Nat)) (x : List Nat) (h : fs ≠ []) :
+    joinSep [32] (fs ++ [x]) = joinSep [32] fs ++ 32 :: x := by
+  rw [joinSep_append [32] fs [x] h (by simp)]
+  simp [joinSep]
+
 theorem record_roundtrip (tn : String) (sch : Schema) (hsch : schemaOf tn = some sch) (st : Style) (env : PEnv)
     (vals : List FV) (tail : Option FV) (hf : FieldsOk st env sch.fields vals) (ht : TailOk st vals sch.tail tail)
-    (hchk : sch.check vals tail = true) :
+    (hbf : sch.tail = .bitmap → sch.fields ≠ []) (hchk : sch.check vals tail = true) :
     ∃ text, printRec sch st vals tail = some text ∧ fromTextRdata (some tn) env text = some (.known vals tail) := by
-  obtain ⟨fi, fp, fl, fpa, fnh, _⟩ := fields_rt st env sch.fields vals hf
-  obtain ⟨ti, tp, tl, tpa, tnh⟩ := tail_rt st vals sch.tail tail ht
+  obtain ⟨fi, fp, fl, fpa, fnh, flen⟩ := fields_rt st env sch.fields vals hf
+  -- the tail: its printed items, their tokens, and the parse
+  have key : ∃ ti : List (List Nat × List Tok),
+      printRec sch st vals tail = some (joinSep [32] (fi.map (·.1) ++ ti.map (·.1))) ∧ (∀ p ∈ ti, Lexes p.1 p.2) ∧
+      parseTail vals sch.tail (ti.flatMap (·.2)) = some tail ∧ HeadNotHash (ti.flatMap (·.2)) := by
+    by_cases hb : sch.tail = .bitmap
+    · rw [hb] at ht
+      cases tail with
+      | none => simp [TailOk] at ht
+      | some v =>
+        cases v <;> simp only [TailOk] at ht <;> try exact ht.elim
+        rename_i ws
+        obtain ⟨hall, hlex, hparse, hhead⟩ := bitmap_tail_rt vals ws ht
+        have hfne : fi.map (·.1) ≠ [] := by
+          have := hbf hb
+          intro e
+          have h0 : fi.length = 0 := by simpa using congrArg List.length e
+          rw [flen] at h0
+          exact this (List.eq_nil_of_length_eq_zero h0)
+        by_cases hws : ws = []
+        · subst hws
+          refine ⟨[], ?_, by simp, ?_, by intro t ht'; simp at ht'⟩
+          · simp [printRec, hb, fp, bitmapText]
+          · rw [hb]; simpa [bitmapNames, identToks] using hparse
+        · refine ⟨[(joinSep [32] (bitmapNames ws), identToks (bitmapNames ws))], ?_, ?_, ?_, ?_⟩
+          · simp only [printRec, hb, hall, if_true, fp, Option.map_some, List.map_cons, List.map_nil]
+            rw [bitmapText_eq ws ht hws, joinSep_snoc _ _ hfne]
+          · intro p hp; simp at hp; subst hp; exact hlex hws
+          · rw [hb]; simpa using hparse
+          · simpa [HeadNotHash] using hhead
+    · obtain ⟨ti, tp, tl, tpa, tnh⟩ := tail_rt st vals sch.tail tail ht hb
+      refine ⟨ti, ?_, tl, tpa, tnh⟩
+      unfold printRec
+      cases hk : sch.tail with
+      | bitmap => exact absurd hk hb
+      | _ => simp only [hk] at tp ⊢; simp [fp, tp]
+  obtain ⟨ti, hprint, tl, tpa, tnh⟩ := key
   let items : List (List Nat × List Tok) := fi.map (fun p => (p.1, [p.2])) ++ ti
   have hitems : ∀ p ∈ items, Lexes p.1 p.2 := by
     intro p hp
@@ -271,7 +317,7 @@ theorem record_roundtrip (tn : String) (sch : Schema) (hsch : schemaOf tn = some
     exact flatMap_singleton_map (fun p : List Nat × Tok => p.2) fi
   have hlex := lexes_joinSep items hitems
   rw [htexts, htoks] at hlex
-  refine ⟨joinSep [32] (fi.map (·.1) ++ ti.map (·.1)), by simp [printRec, fp, tp], ?_⟩
+  refine ⟨joinSep [32] (fi.map (·.1) ++ ti.map (·.1)), hprint, ?_⟩
   have hhead : HeadNotHash (fi.map (·.2) ++ ti.flatMap (·.2)) := by
     intro t htk
     cases fi with
